@@ -37,6 +37,12 @@ GEOMS = {
 }
 for _k, _v in GEOMS.items():
     CONFIGS[_k] = geom(*_v)
+# a small geometry combined with JsonFloat = float: extension slots then hold 64-bit integers only
+CONFIGS["g1_16_4_1_f32"] = geom(1, 16, 4, 1)
+CONFIGS["g1_16_4_1_f32"]["defines"] = CONFIGS["g1_16_4_1_f32"]["defines"] + D(ARDUINOJSON_USE_DOUBLE=0)
+# ... and with 32-bit integers: extension slots then hold doubles only (histories keep their integers in 32 bits)
+CONFIGS["g1_16_4_1_ll0"] = geom(1, 16, 4, 1)
+CONFIGS["g1_16_4_1_ll0"]["defines"] = CONFIGS["g1_16_4_1_ll0"]["defines"] + D(ARDUINOJSON_USE_LONG_LONG=0)
 
 PROPS = {}
 
@@ -385,6 +391,7 @@ PROPS["C08"]["quick"].update({"cases": 250000, "floor_evaluations": 400000, "flo
 # thorough budgets rebalanced after the first complete thorough run (7.5 h): the two heaviest tiers
 # are cut, the cheap ones are raised; target about 5 h for all twenty on 16 cores
 PROPS["C14"]["thorough"]["cases"] = 250000     # was 800000 (2.3 h)
+PROPS["C14"]["thorough"]["floor_evaluations"] = 600000
 PROPS["C06"]["thorough"]["cases"] = 900000     # was 2000000 (1.2 h)
 PROPS["C04"]["thorough"]["cases"] = 500000     # was 800000
 PROPS["C07"]["thorough"]["cases"] = 40000000   # was 6000000 (1 min)
@@ -404,3 +411,14 @@ PROPS["C13"]["quick"].update({"configs": ["default", "num01"], "per_config": {"n
 PROPS["C13"]["thorough"].update({"configs": ["default", "num01"], "per_config": {"num01": {"cases": 5000000, "sweep": False}}})
 PROPS["C02"]["quick"].update({"configs": ["default", "arduino", "num01"], "per_config": {"num01": {"cases": 60000}}})
 PROPS["C08"]["quick"].update({"configs": ["default", "arduino", "num01"], "per_config": {"num01": {"cases": 80000, "sweep": False}}})
+
+# extension slots under the other number configuration (slot accounting must not depend on USE_DOUBLE)
+PROPS["C19"]["quick"]["configs"] = GEOM_ROWS + ["g1_16_4_1_f32", "g1_16_4_1_ll0"]
+PROPS["C19"]["thorough"]["configs"] = GEOM_ROWS + ["g1_16_4_1_f32", "g1_16_4_1_ll0"]
+PROPS["C06"]["quick"]["configs"] = PROPS["C06"]["quick"]["configs"] + ["g1_16_4_1_f32", "g1_16_4_1_ll0"]
+PROPS["C06"]["thorough"]["configs"] = PROPS["C06"]["thorough"]["configs"] + ["g1_16_4_1_f32", "g1_16_4_1_ll0"]
+PROPS["C12"]["quick"]["require_labels"] = ["decimal-literal-of-tens-of-thousands-of-digits"]
+# C12 literals with JsonFloat = float: the float analogue of the parsing clause (no NaN, no wrong magnitude, 1e-6)
+PROPS["C12"]["quick"].update({"configs": ["default", "num01"], "per_config": {"num01": {"cases": 1500000, "sweep": False, "params": {"only_literals": 1}}}})
+PROPS["C12"]["thorough"].update({"configs": ["default", "num01"], "per_config": {"num01": {"cases": 20000000, "sweep": False, "params": {"only_literals": 1}}}})
+PROPS["C14"]["quick"]["require_labels"] = PROPS["C14"]["quick"].get("require_labels", []) + ["many-sharers-of-one-string"]
